@@ -600,8 +600,9 @@ func (cv *ColVal) AppendTimes(times []int64) {
 }
 
 func (cv *ColVal) FillBitmap(val uint8) {
-	bitmapSize := cv.Len/8 + 1
-	if cv.Len%8 == 0 {
+	bitLen := cv.Len + cv.BitMapOffset
+	bitmapSize := bitLen/8 + 1
+	if bitLen%8 == 0 {
 		bitmapSize--
 	}
 
@@ -612,8 +613,8 @@ func (cv *ColVal) FillBitmap(val uint8) {
 }
 
 func (cv *ColVal) RepairBitmap() {
-	if cv.Len%8 > 0 {
-		for i := cv.Len; i < len(cv.Bitmap)*8; i++ {
+	if (cv.Len+cv.BitMapOffset)%8 > 0 {
+		for i := cv.Len; i+cv.BitMapOffset < len(cv.Bitmap)*8; i++ {
 			cv.resetBitMap(i)
 		}
 	}
